@@ -475,6 +475,21 @@ def park2_scope(level="quick"):
                         yield "S-park2", mkcase(cfg, {"w": wf})
 
 
+def offgrid_dense_scope(level="quick"):
+    """every off-grid offset for unit 10, every 4th second for minutes;
+    durations of 1 and 3 steps"""
+    for unit, step in ((10, 1), ("minutes", 4)):
+        f = world.unit_factor(unit)
+        for s in range(1, 2 * f, step):
+            for k in (1, 3):
+                obs = [mkobs("a", s, k * f, 1, 1, 1, "wa"),
+                       mkobs("b", s + (k + 2) * f, f, 1, 1, 1, "wa")]
+                cfg = mkcfg(CLUSTERS[2][0], obs, (100 * f, 10),
+                            (100 * f, 10), 2, 2, timestep=unit)
+                yield "S-offgrid-dense", mkcase(
+                    cfg, {"wa": dag("chain2", [f, f], [0])})
+
+
 def park_algs(case, level="quick"):
     return [{"kind": "queue"}, {"kind": "batch", "p": 1, "min": 1}]
 
